@@ -25,7 +25,10 @@ struct HistCase
         a.optionalNum("bulkFrames", bulkFrames);
         a.optionalNum("reuseObjects", reuseObjects);
         a.optionalNum("idMode", idMode);
+        a.optionalNum("repeatLast", repeatLast);
     }
+    uint16_t repeatLast{0};  // the last history call is made 1 + repeatLast times (long-lived encoders: whatever counts calls - generations,
+                             // epochs, statistics - in a narrow type comes round after 2^7 / 2^8 of them)
 };
 
 static Verdict runCase(const HistCase& c, Info& info)
@@ -76,6 +79,12 @@ static Verdict runCase(const HistCase& c, Info& info)
         }
         else
             encodeVia(a, batch, lib::DataContext{h.minB, h.maxB}, h.overload);
+        if (c.repeatLast && &h == &c.history.back())
+        {
+            for (uint16_t k = 0; k < c.repeatLast; ++k)
+                encodeVia(a, batch, lib::DataContext{h.minB, h.maxB}, h.overload);
+            info.tag("history_call_repeated_about_2^7_or_2^8_times");
+        }
     }
     if (c.idMode && !c.history.empty())
     {
@@ -183,6 +192,26 @@ static rc::Gen<HistCase> genCase(int tier)
             if (prev.kind == rkGeneric && c.last.packets.front().len == 0)
                 c.last.packets.front().len = 1;
         }
+        // one case in twelve: [A, B x about 128 or 256, final batch that starts like A but under another frame size]
+        if (c.history.size() >= 2 && !c.bulkFrames && *range<int>(0, 11) == 0)
+        {
+            c.history.resize(2);
+            c.history[1].abortAfter = -1;
+            if (c.history[1].packets.size() > 3)
+                c.history[1].packets.resize(3);
+            c.repeatLast = static_cast<uint16_t>(*rc::gen::weightedOneOf<int>({{3, range<int>(125, 129)}, {2, range<int>(253, 257)}, {1, range<int>(1, 124)}}));
+            if (!c.history[0].packets.empty())
+            {
+                const PacketRecipe& first = c.history[0].packets.front();
+                c.last.packets.front().kind = first.kind;
+                c.last.packets.front().msgType = first.msgType;
+                c.last.packets.front().ptype = first.ptype;
+                c.last.packets.front().len = std::min(c.last.packets.front().len, PacketRecipe::maxLen(first.kind));
+                if (first.kind == rkGeneric && c.last.packets.front().len == 0)
+                    c.last.packets.front().len = 1;
+                c.last.version = c.history[0].version;
+            }
+        }
         // a quarter of the cases: the history calls ran under other device / stream ids; half of those continue with the frame size and
         // version of the last history call (whatever an encoder keeps per configuration must follow the ids too)
         if (!c.history.empty() && *range<int>(0, 3) == 0)
@@ -264,6 +293,10 @@ int main(int argc, char** argv)
         c.last.abortAfter = -1;
         c.reuseObjects = c.reuseObjects ? 1 : 0;
         c.idMode = static_cast<uint8_t>(c.idMode % 4);
+        if (c.repeatLast > 300)
+            c.repeatLast = static_cast<uint16_t>(c.repeatLast % 301);
+        if (c.history.empty())
+            c.repeatLast = 0;
     };
     return pbtMain(argc, argv, prop);
 }
